@@ -146,6 +146,11 @@ func supervise(args []string) int {
 		return 3
 	}
 	defer os.RemoveAll(scratch)
+	defer func() {
+		for _, base := range otherFSBases() {
+			os.RemoveAll(filepath.Join(base, "otherfs-"+filepath.Base(scratch)))
+		}
+	}()
 	// whatever the check started and left behind (a worker stuck in a call that never returns, a server) ends with the run
 	defer killStrays("VERIF_SCRATCH_DIR=" + scratch)
 	cmd.Env = append(os.Environ(), "VERIF_PROGRESS="+progress, "VERIF_SCRATCH_DIR="+scratch)
